@@ -647,15 +647,7 @@ theorem inv2_step {c : Cfg} {p₀ : List Nat} (hy : Hyp c p₀) {s s' : State} {
       · rw [ht']; simp only [addAt_length]; exact hpwl
     · intro p hp
       rw [hparts, htasks, hpw, sum_map_set t' _ ht, load_set _ _ _ _ _ hvl, h2.loadAcct p hp, hpw' p, ← hip]
-      by_cases e1 : p = ip <;> by_cases e2 : p = q
-      · exact absurd (e2.symm.trans e1) hqne
-      · have : ¬ q = p := fun h => e2 h.symm
-        simp [e1, this]; omega
-      · have : ¬ ip = p := fun h => e1 h.symm
-        simp [e2, this, e1]; omega
-      · have h3 : ¬ ip = p := fun h => e1 h.symm
-        have h4 : ¬ q = p := fun h => e2 h.symm
-        simp [e1, e2, h3, h4]; omega
+      split_ifs <;> omega
     · intro x hx p hp
       rw [hpw, htm]
       rw [htasks] at hx
@@ -663,11 +655,10 @@ theorem inv2_step {c : Cfg} {p₀ : List Nat} (hy : Hyp c p₀) {s s' : State} {
       · exact h2.budget x hx p hp
       · have hb := h2.budget t htmem p hp
         rw [hpw' p]
-        by_cases e1 : p = ip <;> by_cases e2 : p = q
-        · exact absurd (e2.symm.trans e1) hqne
-        · simp only [e1, e2, if_true, if_false]; rw [e1] at hb; omega
-        · simp only [e1, e2, if_true, if_false]; rw [e2] at hb ⊢; omega
-        · simp only [e1, e2, if_false]; omega
+        by_cases e2 : p = q
+        · have hcap' : c.w.getD v 0 + t.pw.getD p 0 ≤ s.tmax.getD p 0 := by rw [e2]; exact hcap
+          split_ifs <;> omega
+        · split_ifs <;> omega
     · rw [htm, hpw]; exact h2.tmaxEq
     · rw [htasks, List.length_set]; exact h2.ntasks
     · rw [hpw]; exact h2.passBound
